@@ -140,7 +140,11 @@ static void tls_global_free(void)
 /* ------------------------------------------------------------------ session model */
 #define MAXL 6
 enum { LK_SOCK, LK_PAIR, LK_FILT, LK_OSSL, LK_MBED };
-enum { FT_NULL, FT_PASS, FT_CHUNK, FT_XOR, FT_REC };
+enum { FT_NULL, FT_PASS, FT_CHUNK, FT_XOR, FT_REC, FT_HOLD };
+/* FT_HOLD: a stateful output filter in the manner of a compressor / block cipher (cf. the zlib filter of
+ * regress_zlib.c): in BEV_NORMAL mode it takes everything it is given into its own context and passes on
+ * whole blocks of k bytes only; the tail (< k bytes) stays in the context until the filter is called with
+ * BEV_FLUSH or BEV_FINISHED.  Input direction: pass-through.  Only in A's stack (forward writer). */
 enum { BASE_TCP, BASE_UNIX, BASE_PAIR };
 enum { TLS_NONE, TLS_OSSL, TLS_MBED };
 enum { RP_ALL, RP_SOME, RP_LAZY };
@@ -154,7 +158,9 @@ struct fctx {
 	int type;
 	struct endpoint *ep;
 	int layer;
-	size_t k;                 /* FT_CHUNK: bytes per call */
+	size_t k;                 /* FT_CHUNK: bytes per call; FT_HOLD: block size */
+	unsigned char *hold;      /* FT_HOLD: bytes taken from the output buffer and not passed on yet */
+	size_t hold_len, hold_cap;
 	uint64_t xkey_out, xkey_in, in_pos, out_pos;
 	unsigned in_hdr_have; unsigned char in_hdr[2]; size_t in_remaining; size_t rec_max;
 	vh_rng rng;
@@ -192,6 +198,8 @@ struct endpoint {
 	size_t r_max_win, r_low_min_win; int r_expect_cb, r_high_seen_win;
 	size_t w_min_win, w_low_max_win; int w_expect_cb;
 	int in_rflush;
+	int n_hold;               /* FT_HOLD filters in this stack */
+	int hold_rec_above;       /* a framing filter sits above one of them: it holds framed bytes, not payload */
 	int wr_reenabled, rd_reenabled, rwm_changed, rflushed;   /* enable after disable happened and nothing moved since */
 	size_t last_in_len;
 	long wm_suspensions, low_gated;
@@ -307,6 +315,17 @@ static void xor_apply(uint64_t key, uint64_t pos, unsigned char *p, size_t n)
 	}
 }
 static void check_overfill(struct endpoint *ep, int ulayer, const char *who);
+static void free_ref(const void *data, size_t len, void *extra);
+/* payload bytes that sit in the contexts of ep's hold-back filters */
+static size_t held_bytes(struct endpoint *ep)
+{
+	size_t t = 0;
+	int j;
+	if (ep->freed || !ep->n_hold) return 0;   /* (the contexts die with the bufferevents) */
+	for (j = 0; j < ep->nl; j++)
+		if (ep->L[j].kind == LK_FILT && ep->L[j].ftype == FT_HOLD && ep->L[j].fx) t += ep->L[j].fx->hold_len;
+	return t;
+}
 
 static int filt_depth;
 static struct evbuffer *active_src[256];
@@ -325,6 +344,49 @@ static enum bufferevent_filter_result filt_run2(struct fctx *fx, int out, struct
 	(void)lim; (void)mode;
 	switch (fx->type) {
 	case FT_PASS:
+		n = avail < cap ? avail : cap;
+		active_before[filt_depth - 1] = evbuffer_get_length(src); active_grown[filt_depth - 1] = 0; active_n[filt_depth - 1] = n;
+		if (n && evbuffer_remove_buffer(src, dst, n) != (int)n) return BEV_ERROR;
+		active_n[filt_depth - 1] = 0;
+		*movedp = moved = n;
+		break;
+	case FT_HOLD:
+		if (out) {
+			size_t emit, had = fx->hold_len;
+			unsigned char *p;
+			/* take everything offered, whatever the mode */
+			if (avail) {
+				if (fx->hold_len + avail > fx->hold_cap) {
+					size_t nc = (fx->hold_len + avail) * 2 + 64;
+					unsigned char *np = realloc(fx->hold, nc);
+					if (!np) return BEV_ERROR;
+					fx->hold = np; fx->hold_cap = nc;
+				}
+				if (evbuffer_remove(src, fx->hold + fx->hold_len, avail) != (int)avail) return BEV_ERROR;
+				fx->hold_len += avail;
+				*movedp = moved = avail;
+			}
+			if (mode == BEV_NORMAL) emit = fx->hold_len - fx->hold_len % fx->k;
+			else {
+				emit = fx->hold_len;
+				vh_stat("hold_filter_calls_flushmode");
+				if (had) { vh_stat("hold_tail_emitted_on_flush"); if (!avail) vh_stat("hold_flush_with_empty_output"); }
+			}
+			if (emit > cap) emit = cap;   /* (never in practice: FT_HOLD is kept out of sessions with write watermarks) */
+			if (!emit) break;
+			/* detach the blocks from the context before dst sees them: appending to dst runs the lower
+			 * layers, which may call back into this filter (be_filter_writecb) with more data */
+			p = malloc(emit);
+			if (!p) return BEV_ERROR;
+			memcpy(p, fx->hold, emit);
+			if (fx->hold_len > emit) memmove(fx->hold, fx->hold + emit, fx->hold_len - emit);
+			fx->hold_len -= emit;
+			*movedp = moved += emit;
+			vh_stat_add("hold_bytes_emitted", (long)emit);
+			if (evbuffer_add_reference(dst, p, emit, free_ref, NULL) != 0) { free(p); return BEV_ERROR; }
+			break;
+		}
+		/* input direction: pass-through */
 		n = avail < cap ? avail : cap;
 		active_before[filt_depth - 1] = evbuffer_get_length(src); active_grown[filt_depth - 1] = 0; active_n[filt_depth - 1] = n;
 		if (n && evbuffer_remove_buffer(src, dst, n) != (int)n) return BEV_ERROR;
@@ -452,7 +514,7 @@ static enum bufferevent_filter_result filt_in(struct evbuffer *src, struct evbuf
     enum bufferevent_flush_mode mode, void *ctx) { return filt_run(ctx, 0, src, dst, lim, mode); }
 static enum bufferevent_filter_result filt_out(struct evbuffer *src, struct evbuffer *dst, ev_ssize_t lim,
     enum bufferevent_flush_mode mode, void *ctx) { return filt_run(ctx, 1, src, dst, lim, mode); }
-static void fctx_free(void *p) { free(p); }
+static void fctx_free(void *p) { struct fctx *fx = p; free(fx->hold); free(fx); }
 
 /* ------------------------------------------------------------------ watermark monitors */
 static int layer_is_tls(const struct layer *l) { return l->kind == LK_OSSL || l->kind == LK_MBED; }
@@ -789,6 +851,9 @@ static void app_eventcb(struct bufferevent *bev, short what, void *arg)
 		vh_stat("eof_checked_strict");
 		if (D < W) {
 			char rule[64];
+			/* (the application flushed before it shut down, see flush_held(): a tail that is still in the
+			 * writer's hold-back filter was left there by that flush) */
+			if (held_bytes(peer(ep))) eof_cause = "-tail-left-in-writers-filter";
 			snprintf(rule, sizeof(rule), "eof-before-data%s", eof_cause);
 			vh_viol(mkkey(s, rule),
 			    "B: event 0x%x after %s with only %llu of %llu bytes delivered (reader %s at shutdown)", what, sm_name[s->shut_mode],
@@ -962,6 +1027,23 @@ static void gen_config(struct session *s)
 	A->wkey = B->rkey = vh_rand(r) | 1;
 	B->wkey = A->rkey = vh_rand(r) | 1;
 
+	/* Hold-back filters in A's stack, where the level does not transform the wire format.  Not in
+	 * watermark sessions (a write watermark below would limit the filter to less than a block, and C18
+	 * stays as it is), and not below a framing filter (the context would hold framed bytes, and the
+	 * accounting of the liveness oracle is in payload bytes).  The choice is drawn from a forked
+	 * generator so that the rest of the configuration of a (seed, case) does not depend on it. */
+	if (!s->use_wm && s->nfilt) {
+		vh_rng hr;
+		static const size_t HK[] = { 7, 64, 1000, 4096 };
+		int rec_above = 0;
+		vh_rng_seed(&hr, vh_mix64(A->wkey ^ 0x484f4c44ULL));
+		for (j = s->nfilt - 1; j >= 0; j--) {
+			if (s->wire[j] == FT_REC) rec_above = 1;
+			if (s->wire[j] || rec_above) continue;
+			if (vh_chance(&hr, 2, 5)) { s->ft[0][j] = FT_HOLD; s->chunk_k[0][j] = VH_PICK(&hr, HK); }
+		}
+	}
+
 	s->fault_plan = s->base_kind != BASE_PAIR && !(s->tls && s->tls_fdmode) && vh_chance(r, 4, 10);
 	s->reset_planned = s->fault_plan && !wm_mode && vh_chance(r, 1, 4);
 
@@ -1064,6 +1146,8 @@ static int build_stack(struct session *s, struct endpoint *ep, struct buffereven
 		    s->opt[side][ep->nl], fctx_free, fx);
 		if (!bev) { free(fx); return -1; }
 		add_layer(ep, LK_FILT, bev, s->opt[side][ep->nl], t, fx, 0);
+		if (t == FT_HOLD) ep->n_hold++;
+		else if (t == FT_REC && ep->n_hold) ep->hold_rec_above = 1;
 	}
 	bufferevent_setcb(ep->top, app_readcb, app_writecb, app_eventcb, ep);
 	ep->r_low_min_win = 0; ep->w_low_max_win = 0;
@@ -1354,6 +1438,7 @@ static int all_drained(struct endpoint *ep)
 	int j;
 	if (ep->freed) return 1;
 	for (j = 0; j < ep->nl; j++) if (evbuffer_get_length(ep->L[j].bev->output)) return 0;
+	if (held_bytes(ep)) return 0;   /* written, but still in the context of a hold-back filter */
 	return 1;
 }
 /* liveness oracles, evaluated only at quiescent points (or when the step cap was hit) */
@@ -1371,6 +1456,18 @@ static void check_liveness(struct session *s, const char *where, int st)
 			/* everything arrived: whatever the application did before is no longer a witness */
 			R->rd_reenabled = R->rwm_changed = R->rflushed = 0; W->wr_reenabled = 0;
 			continue;
+		}
+		{
+			/* A hold-back filter keeps the tail of what it was given until it is called in flush mode,
+			 * and act_flush() has verified that every such call left the contexts empty: what they hold
+			 * now was written after the last flush and is withheld legitimately.  Exactly these bytes
+			 * may be missing; a byte missing anywhere else is judged as always. */
+			size_t held = held_bytes(W);
+			if (held && (W->hold_rec_above ? W->written - delivered <= held : W->written - delivered == held)) {
+				vh_stat("liveness_pending_is_held_tail");
+				VLOG("  liveness(%s) dir %d: the %zu pending bytes are the tail held by A's hold-back filter(s)", where, dir, held);
+				continue;
+			}
 		}
 		if (R->freed || W->freed) blk = "freed";
 		else if (R->n_term_rd || W->n_term_wr || R->n_term_wr || reset_fired) blk = "error/eof reported";
@@ -1481,12 +1578,38 @@ static int settle(struct session *s, const char *where)
 static void act_flush(struct endpoint *ep, short iotype, enum bufferevent_flush_mode mode)
 {
 	struct session *s = ep->s;
+	size_t held0, topout0;
+	uint64_t w0;
 	if (ep->freed) return;
 	s->in_flush = mode != BEV_NORMAL;
 	VLOG("  [%s] flush io=%d mode=%d", side_name(ep), iotype, mode);
 	if (iotype & EV_READ) { ep->in_rflush = 1; ep->rflushed = 1; }
+	held0 = held_bytes(ep); topout0 = evbuffer_get_length(ep->top->output); w0 = ep->written;
 	bufferevent_flush(ep->top, iotype, mode);
 	s->in_flush = 0; ep->in_rflush = 0;
+	if (ep->n_hold && (iotype & EV_WRITE) && mode != BEV_NORMAL && !ep->freed && !s->ended) {
+		/* bufferevent.h: BEV_FLUSH "want to checkpoint all data sent", BEV_FINISHED "encountered EOF on
+		 * read or done sending data"; bufferevent_filter.c be_filter_process_output: "If we're in 'flush'
+		 * or 'finish', call the filter no matter what", and be_filter_flush then flushes the underlying
+		 * the same way.  So every output filter of the stack has been called with this mode, top down,
+		 * whether or not writing is enabled and whether or not anything was queued; a hold-back filter
+		 * called so passes on all it holds.  The only bytes that may be in a context now are bytes the
+		 * application wrote from a callback while the flush was running. */
+		size_t held1 = held_bytes(ep);
+		if (ep->written != w0) vh_stat("hold_flush_unchecked_write_during_flush");
+		else {
+			vh_stat("hold_flush_checked");
+			if (held0) vh_stat("hold_flush_checked_with_tail");
+			if (held0 && !topout0) vh_stat("hold_flush_checked_with_tail_and_empty_output");
+			if (held1) {
+				vh_viol(mkkey(s, "flush-left-bytes-in-filter"),
+				    "%s: bufferevent_flush(top, EV_WRITE, %s) returned and the stateful output filter(s) of the stack still hold %zu bytes (%zu before the call; the top output buffer held %zu bytes before the call, %zu now; write %s): the output filter was not called in flush mode, the tail will never be sent",
+				    side_name(ep), mode == BEV_FLUSH ? "BEV_FLUSH" : "BEV_FINISHED", held1, held0, topout0,
+				    evbuffer_get_length(ep->top->output), (ep->top->enabled & EV_WRITE) ? "enabled" : "disabled");
+				s->ended = 1;
+			}
+		}
+	}
 	vh_stat(mode == BEV_NORMAL ? "flush_normal" : mode == BEV_FLUSH ? "flush_flush" : "flush_finished");
 	if ((iotype & EV_READ) && vh_chance(&s->rng, 1, 2)) consume(ep, (size_t)-1);
 }
@@ -1579,6 +1702,16 @@ static void traffic(struct session *s)
 	while (!s->ended && !reset_fired && A->written < A->total) app_write(A, pick_chunk(A));
 	while (!s->ended && !reset_fired && B->written < B->total) app_write(B, pick_chunk(B));
 }
+/* An application that writes through a filter which keeps a tail (compressor, block cipher) flushes it
+ * before it waits for "everything I wrote has arrived" or ends the stream. */
+static void flush_held(struct session *s, const char *where)
+{
+	struct endpoint *A = &s->ep[0];
+	if (s->ended || A->freed || !A->n_hold) return;
+	VLOG("  [A] %s: application flushes its hold-back filter(s), %zu bytes held", where, held_bytes(A));
+	vh_stat("hold_app_flush_before_end");
+	act_flush(A, EV_WRITE, BEV_FLUSH);
+}
 /* make both directions flow and let everything arrive; leaves the loop idle */
 static void drain_phase(struct session *s)
 {
@@ -1598,6 +1731,7 @@ static void drain_phase(struct session *s)
 		ep->rp_mode = RP_ALL; ep->tog_in_cb = 0;
 		app_enable(ep, EV_READ | EV_WRITE);
 	}
+	flush_held(s, "drain");
 	for (round = 0; round < 100000 && !s->ended; round++) {
 		size_t got = 0;
 		int st = settle(s, "drain");
@@ -1651,12 +1785,21 @@ static void shutdown_phase(struct session *s)
 		bufferevent_disable(B->top, EV_READ);
 		A->total = A->written + n;
 		app_write(A, n);
+		flush_held(s, "late-tail");
+		if (s->ended) return;
 		for (i = 0; i < 200 && !s->ended && !all_drained(A); i++) settle(s, "late-tail");
 		if (s->ended) return;
 		s->b_disabled_at_shut = 1;
 		vh_stat("late_tail_written_while_reader_paused");
 	}
 	if (mode == SM_SHUTWR_DRAINED || mode == SM_CLOSE_NOTIFY || mode == SM_FREE_DRAINED) {
+		if (held_bytes(A)) {
+			/* (only when the drain phase was skipped or ended early) */
+			int i;
+			flush_held(s, "shutdown");
+			for (i = 0; i < 200 && !s->ended && !all_drained(A); i++) settle(s, "flush-before-shutdown");
+			if (s->ended) return;
+		}
 		if (!all_drained(A)) { vh_stat("shutdown_not_drained"); clean = 0; }
 		s->strict = clean;
 	} else if (mode == SM_FINISHED_FLUSH) {
@@ -1681,6 +1824,7 @@ static void shutdown_phase(struct session *s)
 		size_t before = 0, after;
 		int j;
 		for (j = 0; j < A->nl; j++) before += evbuffer_get_length(A->L[j].bev->output);
+		before += held_bytes(A);
 		act_flush(A, EV_WRITE, BEV_FINISHED);
 		after = A->freed ? 0 : evbuffer_get_length(A->L[0].bev->output);
 		if (!sock && after && after < before) { s->pair_flush_partial = 1; vh_stat("pair_finished_flush_partial"); }
@@ -1746,7 +1890,7 @@ static void run_case(long idx, vh_rng *rng)
 	if (s->nfilt) vh_stat(s->nfilt == 1 ? "filters_1" : s->nfilt == 2 ? "filters_2" : "filters_3");
 	for (side = 0; side < 2; side++) {
 		for (j = 0; j < s->nfilt; j++) {
-			static const char *fn[] = { "filter_null", "filter_pass", "filter_chunk", "filter_xor", "filter_framing" };
+			static const char *fn[] = { "filter_null", "filter_pass", "filter_chunk", "filter_xor", "filter_framing", "filter_hold" };
 			vh_stat(fn[s->ft[side][j]]);
 		}
 		for (j = 0; j < s->ep[side].nl; j++) {
